@@ -2,6 +2,7 @@ package obl
 
 import (
 	"fmt"
+	"os"
 	"go/token"
 	"go/types"
 	"sort"
@@ -15,38 +16,68 @@ type blockIn struct {
 	visits int
 }
 
+var trace = os.Getenv("VERIF_OBL_TRACE") != ""
+
 const maxPartitions = 4
 const widenAfter = 3
 
-// analyzeFunc runs the forward analysis of fn in frame f from state `in`; it returns one state per
-// reachable return instruction.
+// analyzeFunc runs the forward analysis of fn in frame f from state `in` to a fixpoint and returns one
+// state per reachable return instruction. Obligations are recorded on every visit; the verdict of the
+// last visit of an instruction in a frame (made with the stable, weakest entry state) is the one kept.
 func (an *Analyzer) analyzeFunc(fn *ssa.Function, f *Frame, in *State, final bool) []retState {
 	if len(fn.Blocks) == 0 {
 		return nil
 	}
+	if c, ok := an.memo[f]; ok && equalStates(c.in, in) {
+		an.memoHits++
+		var out []retState
+		for _, r := range c.rets {
+			out = append(out, retState{st: r.st.clone(), results: r.results, ret: r.ret})
+		}
+		return out
+	}
+	inCopy := in.clone()
+	defer func() {
+		// filled below through the named slot
+	}()
 	an.stack = append(an.stack, fn)
 	defer func() { an.stack = an.stack[:len(an.stack)-1] }()
-	if final {
-		an.Reached[fn]++
+	an.Reached[fn]++
+	if trace {
+		fmt.Fprintf(os.Stderr, "%senter %s (state: vals=%d ints=%d mem=%d iv=%d ub=%d)\n", strings.Repeat(" ", f.depth), fn.Name(), len(in.vals), len(in.ints), len(in.mem), len(in.iv), len(in.ub))
+		defer func(d int) { fmt.Fprintf(os.Stderr, "%sleave %s\n", strings.Repeat(" ", d), fn.Name()) }(f.depth)
 	}
-	// table summary: pure switch functions of one integer parameter returning constants
-	// (used by the caller through mergeReturns: result term gets tbl entry)
 	ins := make([]*blockIn, len(fn.Blocks))
 	for i := range ins {
 		ins[i] = &blockIn{}
 	}
 	ins[0].parts = []*State{in}
+	// loop headers: blocks with an incoming back edge
+	header := make([]bool, len(fn.Blocks))
+	for _, b := range fn.Blocks {
+		for _, sc := range b.Succs {
+			if sc.Dominates(b) {
+				header[sc.Index] = true
+			}
+		}
+	}
+	type edgeKey struct{ from, to int }
+	edges := map[edgeKey][]*State{}
 	work := []*ssa.BasicBlock{fn.Blocks[0]}
 	inWork := map[*ssa.BasicBlock]bool{fn.Blocks[0]: true}
+	retOf := map[*ssa.BasicBlock][]retState{}
 	iter := 0
 	for len(work) > 0 {
 		iter++
 		an.steps++
-		if iter > 4000 || an.steps > 4000000 {
+		if trace && iter%50 == 0 {
+			fmt.Fprintf(os.Stderr, "%s iter %d in %s work=%d\n", strings.Repeat(" ", f.depth), iter, fn.Name(), len(work))
+		}
+		if iter > 2000 {
 			an.Warnings = append(an.Warnings, "fixpoint bound reached in "+fn.String())
+			an.failAll = true
 			break
 		}
-		// pick the block with the smallest index (approximates reverse post-order)
 		bi := 0
 		for i, b := range work {
 			if b.Index < work[bi].Index {
@@ -58,59 +89,9 @@ func (an *Analyzer) analyzeFunc(fn *ssa.Function, f *Frame, in *State, final boo
 		inWork[b] = false
 		bin := ins[b.Index]
 		bin.visits++
+		retOf[b] = nil
+		outEdges := make([][]*State, len(b.Succs))
 		for _, st := range bin.parts {
-			out := st.clone()
-			for _, instr := range b.Instrs {
-				if out.dead {
-					break
-				}
-				an.step(out, f, instr, false)
-			}
-			if out.dead {
-				continue
-			}
-			for si, succ := range b.Succs {
-				e := out.clone()
-				if ifi, ok := b.Instrs[len(b.Instrs)-1].(*ssa.If); ok {
-					an.assumeCond(e, f, ifi.Cond, si == 0)
-				}
-				if e.dead {
-					continue
-				}
-				an.applyPhis(e, f, b, succ)
-				if an.mergeInto(ins[succ.Index], e, fmt.Sprintf("%s:b%d", f.key, succ.Index), ins[succ.Index].visits) {
-					if !inWork[succ] {
-						inWork[succ] = true
-						work = append(work, succ)
-					}
-				}
-			}
-		}
-	}
-	var rets []retState
-	if !final {
-		// collect return states from the stable solution
-		for _, b := range fn.Blocks {
-			for _, st := range ins[b.Index].parts {
-				if r, ok := b.Instrs[len(b.Instrs)-1].(*ssa.Return); ok {
-					out := st.clone()
-					for _, instr := range b.Instrs {
-						if out.dead {
-							break
-						}
-						an.step(out, f, instr, false)
-					}
-					if !out.dead {
-						rets = append(rets, an.mkRet(out, f, r))
-					}
-				}
-			}
-		}
-		return rets
-	}
-	// final pass: record obligations with the stable block-entry states
-	for _, b := range fn.Blocks {
-		for _, st := range ins[b.Index].parts {
 			out := st.clone()
 			for _, instr := range b.Instrs {
 				if out.dead {
@@ -122,11 +103,126 @@ func (an *Analyzer) analyzeFunc(fn *ssa.Function, f *Frame, in *State, final boo
 				continue
 			}
 			if r, ok := b.Instrs[len(b.Instrs)-1].(*ssa.Return); ok {
-				rets = append(rets, an.mkRet(out, f, r))
+				retOf[b] = append(retOf[b], an.mkRet(out, f, r))
+				continue
+			}
+			for si, succ := range b.Succs {
+				e := out
+				if len(b.Succs) > 1 {
+					e = out.clone()
+				}
+				if ifi, ok := b.Instrs[len(b.Instrs)-1].(*ssa.If); ok {
+					an.assumeCond(e, f, ifi.Cond, si == 0)
+				}
+				if e.dead {
+					continue
+				}
+				an.applyPhis(e, f, b, succ)
+				outEdges[si] = append(outEdges[si], e)
+			}
+		}
+		for si, succ := range b.Succs {
+			edges[edgeKey{b.Index, succ.Index}] = outEdges[si]
+			// recompute the entry state of succ from all its incoming edges
+			var incoming []*State
+			if header[succ.Index] {
+				// values defined before the loop do not change inside it: back-edge states take their
+				// bindings from the loop-entry states instead of merging stale copies
+				var entry, back []*State
+				for _, p := range succ.Preds {
+					if succ.Dominates(p) {
+						back = append(back, edges[edgeKey{p.Index, succ.Index}]...)
+					} else {
+						entry = append(entry, edges[edgeKey{p.Index, succ.Index}]...)
+					}
+				}
+				if succ.Index == 0 {
+					entry = append(entry, in)
+				}
+				ej := an.groupJoin(entry, fmt.Sprintf("%s:b%d:entry", f.key, succ.Index))
+				for _, bs := range back {
+					if bs == nil || bs.dead || len(ej) == 0 {
+						continue
+					}
+					src := ej[0]
+					for _, e := range ej {
+						if e.partKey() == bs.partKey() {
+							src = e
+						}
+					}
+					fix := bs.clone()
+					for k, v := range src.vals {
+						if k.f == f && definedBefore(k.v, succ) {
+							fix.vals[k] = v
+						}
+					}
+					for k, v := range src.ints {
+						if k.f == f && definedBefore(k.v, succ) {
+							fix.ints[k] = v
+						}
+					}
+					for k, v := range src.tuples {
+						if k.f == f && definedBefore(k.v, succ) {
+							fix.tuples[k] = v
+						}
+					}
+					incoming = append(incoming, fix)
+				}
+				incoming = append(incoming, ej...)
+			} else {
+				for _, p := range succ.Preds {
+					incoming = append(incoming, edges[edgeKey{p.Index, succ.Index}]...)
+				}
+				if succ.Index == 0 {
+					incoming = append(incoming, in)
+				}
+			}
+			sin := ins[succ.Index]
+			np := an.groupJoin(incoming, fmt.Sprintf("%s:b%d", f.key, succ.Index))
+			if header[succ.Index] && len(sin.parts) > 0 && sin.visits >= 3*widenAfter {
+				// still moving: force monotone accumulation
+				np = an.accumulate(sin.parts, np, fmt.Sprintf("%s:b%d", f.key, succ.Index), true)
+			} else if header[succ.Index] && len(sin.parts) > 0 && sin.visits >= widenAfter {
+				// loop header: widen against the previous entry state so that the iteration terminates
+				for _, n := range np {
+					for _, o := range sin.parts {
+						if o.partKey() == n.partKey() {
+							an.widen(o, n)
+						}
+					}
+				}
+			}
+			if !sameParts(sin.parts, np) {
+				sin.parts = np
+				if !inWork[succ] {
+					inWork[succ] = true
+					work = append(work, succ)
+				}
 			}
 		}
 	}
+	var rets []retState
+	for _, b := range fn.Blocks {
+		rets = append(rets, retOf[b]...)
+	}
+	var saved []retState
+	for _, r := range rets {
+		saved = append(saved, retState{st: r.st.clone(), results: r.results, ret: r.ret})
+	}
+	an.memo[f] = &memoEntry{in: inCopy, rets: saved}
+	// the memo of deeper frames is only useful while this function iterates
+	pre := f.key + "/"
+	for fr := range an.memo {
+		if strings.HasPrefix(fr.key, pre) {
+			delete(an.memo, fr)
+		}
+	}
 	return rets
+}
+
+type memoEntry struct {
+	in   *State
+	rets []retState
 }
 
 func (an *Analyzer) mkRet(st *State, f *Frame, r *ssa.Return) retState {
@@ -284,6 +380,86 @@ func (an *Analyzer) applyPhis(e *State, f *Frame, pred, succ *ssa.BasicBlock) {
 	}
 }
 
+// groupJoin joins the states partition-wise (same partition key => one state).
+func (an *Analyzer) groupJoin(sts []*State, at string) []*State {
+	var out []*State
+	for _, e := range sts {
+		if e == nil || e.dead {
+			continue
+		}
+		key := e.partKey()
+		placed := false
+		for i, p := range out {
+			if p.partKey() == key {
+				out[i] = an.joinStates(p, e, at)
+				placed = true
+				break
+			}
+		}
+		if !placed {
+			if len(out) >= maxPartitions {
+				j := an.joinStates(out[0], e, at)
+				j.part = map[*Term]string{}
+				out[0] = j
+				continue
+			}
+			out = append(out, e)
+		}
+	}
+	return out
+}
+
+// accumulate joins the new entry states of a loop header with the previous ones (and widens).
+func (an *Analyzer) accumulate(old, nw []*State, at string, widenNow bool) []*State {
+	var out []*State
+	used := make([]bool, len(old))
+	for _, e := range nw {
+		key := e.partKey()
+		merged := false
+		for i, p := range old {
+			if p.partKey() == key {
+				j := an.joinStates(p, e, at)
+				if widenNow {
+					an.widen(p, j)
+				}
+				out = append(out, j)
+				used[i] = true
+				merged = true
+				break
+			}
+		}
+		if !merged {
+			out = append(out, e)
+		}
+	}
+	for i, p := range old {
+		if !used[i] {
+			out = append(out, p)
+		}
+	}
+	if len(out) > maxPartitions {
+		j := out[0]
+		for _, x := range out[1:] {
+			j = an.joinStates(j, x, at)
+		}
+		j.part = map[*Term]string{}
+		out = []*State{j}
+	}
+	return out
+}
+
+func sameParts(a, b []*State) bool {
+	if len(a) != len(b) {
+		return false
+	}
+	for i := range a {
+		if !equalStates(a[i], b[i]) {
+			return false
+		}
+	}
+	return true
+}
+
 // mergeInto merges edge state e into the block's entry partitions; reports whether anything changed.
 func (an *Analyzer) mergeInto(b *blockIn, e *State, at string, visits int) bool {
 	key := e.partKey()
@@ -333,7 +509,7 @@ func (an *Analyzer) widen(old, n *State) {
 	for x, m := range n.ub {
 		for y, c := range m {
 			if oc, ok := old.ub[x][y]; ok && c > oc {
-				delete(m, y)
+				n.delUB(x, y)
 			}
 		}
 	}
@@ -358,35 +534,26 @@ func typeHi(t *Term) int64 {
 
 // ---- obligations ----
 
-func (an *Analyzer) ob(f *Frame, ins ssa.Instruction, kind, expr string) *Obligation {
-	m := an.obls[ins]
-	if m == nil {
-		m = map[string]*Obligation{}
-		an.obls[ins] = m
-	}
-	o := m[kind+expr]
-	if o == nil {
-		o = &Obligation{Kind: kind, Fn: f.fn, Instr: ins, Expr: expr, Pos: ins.Pos()}
-		m[kind+expr] = o
-	}
-	return o
+type verdict struct {
+	kind, expr string
+	fn         *ssa.Function
+	ins        ssa.Instruction
+	proved     bool
+	why        string
+	assumed    string
 }
 
 func (an *Analyzer) record(f *Frame, ins ssa.Instruction, kind, expr string, proved bool, why string, s *State) {
-	o := an.ob(f, ins, kind, expr)
-	o.Contexts++
+	k := fmt.Sprintf("%s|%p|%s|%s", f.key, ins, kind, expr)
 	if !proved {
-		o.Failed++
-		if o.Why == "" {
-			o.Why = why + " [context: " + ctxString(f) + "]"
-		}
+		why = why + " [context: " + ctxString(f) + "]"
 	}
+	an.verdicts[k] = &verdict{kind: kind, expr: expr, fn: f.fn, ins: ins, proved: proved, why: why}
 }
 
 func (an *Analyzer) recordAssumed(f *Frame, ins ssa.Instruction, kind, expr, reason string) {
-	o := an.ob(f, ins, kind, expr)
-	o.Contexts++
-	o.Assumed = reason
+	k := fmt.Sprintf("%s|%p|%s|%s", f.key, ins, kind, expr)
+	an.verdicts[k] = &verdict{kind: kind, expr: expr, fn: f.fn, ins: ins, proved: true, assumed: reason}
 }
 
 func ctxString(f *Frame) string {
@@ -533,13 +700,39 @@ func (an *Analyzer) AnalyzeRoot(fn *ssa.Function, opts RootOpts) {
 	an.analyzeFunc(fn, f, st, true)
 }
 
-// Obligations returns all recorded obligations, sorted.
+// Obligations aggregates the per-context verdicts per instruction.
 func (an *Analyzer) Obligations() []*Obligation {
-	var out []*Obligation
-	for _, m := range an.obls {
-		for _, o := range m {
-			out = append(out, o)
+	agg := map[string]*Obligation{}
+	var keys []string
+	for k := range an.verdicts {
+		keys = append(keys, k)
+	}
+	sort.Strings(keys)
+	for _, k := range keys {
+		v := an.verdicts[k]
+		ok := fmt.Sprintf("%p|%s|%s", v.ins, v.kind, v.expr)
+		o := agg[ok]
+		if o == nil {
+			o = &Obligation{Kind: v.kind, Fn: v.fn, Instr: v.ins, Expr: v.expr, Pos: v.ins.Pos()}
+			agg[ok] = o
 		}
+		o.Contexts++
+		if !v.proved || an.failAll {
+			o.Failed++
+			if o.Why == "" {
+				o.Why = v.why
+				if an.failAll && v.proved {
+					o.Why = "analysis did not reach a fixpoint: no verdict"
+				}
+			}
+		}
+		if v.assumed != "" {
+			o.Assumed = v.assumed
+		}
+	}
+	var out []*Obligation
+	for _, o := range agg {
+		out = append(out, o)
 	}
 	sort.Slice(out, func(i, j int) bool {
 		a, b := out[i], out[j]
@@ -560,4 +753,16 @@ func (an *Analyzer) Obligations() []*Obligation {
 // Key is the stable construct key of an obligation: function, kind and normalised expression.
 func (o *Obligation) Key(fnName func(*ssa.Function) string) string {
 	return fmt.Sprintf("%s:%s:%s", fnName(o.Fn), o.Kind, strings.ReplaceAll(o.Expr, " ", ""))
+}
+
+// definedBefore: v is a parameter/free variable, or an instruction whose block strictly dominates b.
+func definedBefore(v ssa.Value, b *ssa.BasicBlock) bool {
+	switch x := v.(type) {
+	case *ssa.Parameter, *ssa.FreeVar:
+		return true
+	case ssa.Instruction:
+		db := x.Block()
+		return db != nil && db != b && db.Dominates(b)
+	}
+	return false
 }
